@@ -138,7 +138,7 @@ def step (st : Driver.Auth.St) (op : List String) (impl : String) : Driver.Auth.
       let req : RegisterReq := ⟨rp, user, chal, algs, excl, sel, ext⟩
       let out := register (verifierOf o rp) st.cfg uv s0 (draws.getD Driver.Auth.emptyDraws) o.origin o.originStr req cd
       let model := s!"res={showRegRes out.result} {showTraceStore out.trace out.store}"
-      let verdict := Spec.Client.verdictReg st.prop st.cfg st.store.kind uv o.origin o.originStr req cd st.implStore impl
+      let verdict := Spec.Client.verdictReg st.prop st.cfg st.store.kind uv o.origin o.originStr req cd draws st.implStore impl
       let implStore := match fieldOf impl "store" with
         | some t => if t = "EMPTY" then some [] else (t.splitOn ";").mapM parseSnap
         | none => none
